@@ -17,7 +17,7 @@ def run(prog: Program, rep: Report, tier: str) -> None:
     rep.rule('C07-D1', 'the in-place multiply callback handed to torch_semiring_einsum by each *.einsum is, on every pair of carrier classes, the same function as that semiring\'s mul (0 x inf = 0 convention); the additive callbacks belong to the family of add')
     rep.rule('C07-D2', 'sparsity relative to semiring zero: in einsum and log_viterbi_einsum_forward the operand list is rebound to [t.default_to(<from_int(0)>.item()) ...] before any axis is unified, and every value tensor they construct takes its default from from_int(0)')
     rep.rule('C07-D3', 'mv / mm forward the semiring and use index strings that denote matrix-vector / matrix-matrix contraction')
-    rep.rule('C07-D4', 'pointer width: at every return of the Viterbi variant the size of the pointer\'s last axis is derived from the summed-out indices (index_to_vaxis after the output pops / ptr.size(-1) / len(ptrs)), never from the output axes; the literal 0 only on the empty-operand return')
+    rep.rule('C07-D4', 'pointer width: at every return of the Viterbi variant the size of the pointer\'s last axis is the number of summed-out indices (the index map after the output pops, or the list of per-index pointers built from it), never the number of output axes nor the number of physical argmax coordinates of the raw library pointer; the literal 0 only on the empty-operand return')
     rep.rule('C07-D5', 'stride-0 reduction only for sum-free equations: in reduce_equation the operands are shrunk (as_strided) only when every variable of the equation is an output variable; with a summed-out variable the equation is handed on unchanged (a broadcast summed-out index contributes n identical terms and must not be dropped)')
     rep.not_decided += ['correctness of axis unification, projection strides, reduce_equation and argmax reconstruction (numerical / combinatorial)']
     rep.trusted += ['torch_semiring_einsum calls the callbacks as documented (extend.py)', 'transfer tables of sa/absint/domain.py']
@@ -161,6 +161,14 @@ def pointer_width(rep: Report, prog: Program) -> None:
     if not index_maps:
         rep.error(f"{rule}: cannot identify the index map (a dict popped for the output indices) in log_viterbi_einsum_forward")
         return
+    # the raw pointer tensor returned by the library has one coordinate per summed-out *physical* axis; the number of entries handed
+    # to the caller is the number of summed-out *indices*: only the index map and the per-index list are admissible sources
+    raw_ptr = set()
+    for n in own_nodes(f.node):
+        if isinstance(n, ast.Assign) and isinstance(n.targets[0], ast.Tuple) and len(n.targets[0].elts) == 2 and isinstance(n.value, ast.Call) \
+                and callee_last(n.value) == 'log_viterbi_einsum_forward' and isinstance(n.targets[0].elts[1], ast.Name):
+            raw_ptr.add(n.targets[0].elts[1].id)
+    allowed -= raw_ptr
     sources = set(allowed)
     counters = set()
     for n in own_nodes(f.node):
@@ -208,6 +216,18 @@ def pointer_width(rep: Report, prog: Program) -> None:
                    f"trailing size `{norm(trailing)}` is derived from the summed-out indices" if ok else
                    f"trailing size `{norm(trailing)}` is derived from {sorted(names)}: the pointer must have one entry per summed-out index, not per output axis")
     # (2) the dispatch on the number n of summed-out indices: for n = 0..3 the constructor reached has a trailing axis of size n
+    raw_counters = set()
+    for n in own_nodes(f.node):
+        if isinstance(n, ast.Assign) and len(n.targets) == 1 and isinstance(n.targets[0], ast.Name) and names_in(n.value) & raw_ptr \
+                and isinstance(n.value, (ast.Call, ast.Subscript)) and ('size' in norm(n.value) or 'shape' in norm(n.value)):
+            raw_counters.add(n.targets[0].id)
+    raw_tests = [n for n, nd in cfg.nodes.items() if nd.kind == 'test' and names_in(nd.expr) & raw_counters]
+    if raw_tests and not [n for n, nd in cfg.nodes.items() if nd.kind == 'test' and names_in(nd.expr) & counters]:
+        rc = sorted(raw_counters)[0]
+        rep.ob(rule, f.fq(), 'pointer width taken from ptr.size(-1)', f.loc(cfg.nodes[raw_tests[0]].stmt), False,
+               f"the number of pointer entries is `{rc}`, the number of physical argmax coordinates of the raw pointer, not the number of summed-out indices: "
+               "they differ when a summed-out index is determined by output axes (pairing or diagonal operands)")
+        return
     tests = [n for n, nd in cfg.nodes.items() if nd.kind == 'test' and names_in(nd.expr) & counters]
     if not tests or len(counters) < 1:
         rep.error(f"{rule}: no dispatch on the number of summed-out indices found in log_viterbi_einsum_forward")
